@@ -95,6 +95,7 @@ type Task struct {
 
 	// the map (of a shared struct) this task is about to read or write: set while it is parked at
 	// the yield right before the statement (see MapAccess)
+	Stalled   bool // fault "stalled goroutine": not scheduled until released (StallRunnable / Release)
 	depthTick uint32
 	pendMap   uintptr
 	pendWrite bool
@@ -189,6 +190,9 @@ type Sim struct {
 	Stats       Stats
 	yieldCount  map[string]int
 	RMWPreempts uint64
+	pauseSite   string // RunToSite: hand the baton back at the nth yield whose site contains this
+	pauseSiteN  int
+	sitePaused  bool
 	mapRaces    map[string]bool
 	sqlHeld     []any // *sql.Rows / *sql.Tx handed out to tasks of this process image
 	OnSQL       func() // driver hook: called right before each database statement executes
@@ -443,6 +447,16 @@ func Yield(site string) {
 	if t.depthTick&127 == 0 {
 		checkDepth()
 	}
+	if s.pauseSite != "" && strings.Contains(site, s.pauseSite) {
+		s.pauseSiteN--
+		if s.pauseSiteN <= 0 {
+			s.pauseSite = ""
+			s.sitePaused = true
+			t.State = Runnable
+			s.park(t)
+			return
+		}
+	}
 	if s.PauseAt != 0 && s.Step >= s.PauseAt {
 		t.State = Runnable
 		s.park(t)
@@ -495,6 +509,16 @@ func Access(site string, mode byte) {
 		s.now += time.Microsecond
 		s.Stats.Yields++
 		s.logEvent("y", t, site)
+		if s.pauseSite != "" && strings.Contains(site, s.pauseSite) {
+			s.pauseSiteN--
+			if s.pauseSiteN <= 0 {
+				s.pauseSite = ""
+				s.sitePaused = true
+				t.State = Runnable
+				s.park(t)
+				return
+			}
+		}
 		if s.PauseAt != 0 && s.Step >= s.PauseAt {
 			t.State = Runnable
 			s.park(t)
@@ -770,6 +794,9 @@ const (
 func (s *Sim) runnable() []*Task {
 	var rs []*Task
 	for _, t := range s.tasks {
+		if t.Stalled {
+			continue // fault: this goroutine gets no CPU for the time being
+		}
 		switch t.State {
 		case Runnable:
 			rs = append(rs, t)
@@ -784,6 +811,30 @@ func (s *Sim) runnable() []*Task {
 		}
 	}
 	return rs
+}
+
+// StallRunnable is the fault "a goroutine gets no CPU for a while" (GC pause, a loaded machine):
+// every task that is in the middle of something right now (runnable, i.e. paused at a yield point)
+// stops being scheduled until Release. Tasks waiting for input are left alone.
+func (s *Sim) StallRunnable() []*Task {
+	var ts []*Task
+	for _, t := range s.tasks {
+		if t.State == Runnable && !t.Stalled {
+			t.Stalled = true
+			ts = append(ts, t)
+		}
+	}
+	if len(ts) > 0 {
+		s.net.FaultLog["stalled-goroutine"] += len(ts)
+	}
+	return ts
+}
+
+func (s *Sim) Release(ts []*Task) {
+	for _, t := range ts {
+		t.Stalled = false
+	}
+	s.Version++
 }
 
 func (s *Sim) pick(rs []*Task) *Task {
@@ -883,6 +934,18 @@ func (s *Sim) RunToStep(k uint64, advanceTime bool) StopReason {
 	r := s.Run(func() bool { return s.Step >= k }, advanceTime)
 	s.PauseAt = old
 	return r
+}
+
+// RunToSite runs until some task reaches, for the nth time, a yield point whose site contains sub
+// (lock and unlock sites carry the name of the function they are in) and pauses it right there -
+// a failpoint by name. Returns false if the simulation became quiescent first.
+func (s *Sim) RunToSite(sub string, nth int, maxSteps uint64) bool {
+	s.pauseSite, s.pauseSiteN, s.sitePaused = sub, nth, false
+	limit := s.Step + maxSteps
+	s.Run(func() bool { return s.sitePaused || s.Step >= limit }, false)
+	hit := s.sitePaused
+	s.pauseSite, s.sitePaused = "", false
+	return hit
 }
 
 func (s *Sim) Tasks() []*Task { return s.tasks }
